@@ -122,7 +122,12 @@ class BadCopy:
         return f"BadCopy({self.n})"
 
     def __eq__(self, other):
+        if type(other) is not BadCopy:
+            return NotImplemented
         return self is other
+
+    def __le__(self, other):
+        return NotImplemented
 
     __hash__ = None
 
